@@ -335,6 +335,16 @@ fn run(ctx: &RunCtx) -> Report {
             // probed when it is voted, however recently another address was probed.
             let mut crng = Rng::new(crate::rng::key(ctx.seed, &[crate::rng::tag("c18-confused-first")]));
             let confused_until: Option<u64> = if situation == 0 && crng.chance(1, 3) { Some(crng.range(20, 280) * SEC) } else { None };
+            // reachable nodes, 1 run in 3: *most advertised peers are dead* - more than half of the scripted peers have
+            // crashed before the node starts; the bootstrap list and the live peers still advertise them. The live
+            // ones all report the node's true address.
+            if situation == 0 && confused_until.is_none() && crng.chance(1, 3) && rawnet.len() >= 3 {
+                let n_dead = rawnet.len() / 2 + 1;
+                for i in (rawnet.len() - n_dead)..rawnet.len() {
+                    rawnet.with_peer(i, |p| p.silent = true);
+                }
+                report.probe("adaptive_with_most_advertised_peers_dead", 1);
+            }
             if confused_until.is_some() {
                 let wrong = SocketAddrV4::new(pub_ip(&mut crng), 6881);
                 for i in 0..rawnet.len() {
